@@ -8,6 +8,9 @@ Inductive res (A : Type) : Type :=
 | Ok (a : A) | Err (e : N) | Panic | OutOfFuel.
 Arguments Ok {A} a. Arguments Err {A} e. Arguments Panic {A}. Arguments OutOfFuel {A}.
 
+Lemma Ok_inj {A} (a b : A) : Ok a = Ok b -> a = b.
+Proof. intros H; injection H; auto. Qed.
+
 Definition bind {A B} (r : res A) (f : A -> res B) : res B :=
   match r with Ok a => f a | Err e => Err e | Panic => Panic | OutOfFuel => OutOfFuel end.
 
